@@ -157,8 +157,9 @@ def ofExcept {α} (f : α → SExp) : Except Err α → SExp
   | .ok a => list [atom "ok", f a]
   | .error e => ofErr e
 
-/-- import of a text: lexer, then the token-level importer -/
-def importText (s : String) : Except Err Engine := lexText s >>= fllImport
+/-- import of a text: the loop of `FllImporter.engine` with each line lexed when the loop reaches it
+    (= `lexText s >>= fllImport` whenever every line lexes; tied to the translated code by `C14.code_fllEngine`) -/
+def importText (s : String) : Except Err Engine := importTextLazy s
 
 def exportCmd : List SExp → Option SExp
   -- C14: whole engines
